@@ -42,7 +42,7 @@ class UQSim(DS.DimwiseSim):
         self.sa = SpatiallyAdaptiveSingleDimensions2(a, b, operation=self.op, norm=2, use_volume_weighting=c["volume_weighting"],
                                                      grid_surplusses=self.op.get_grid(), margin=c["margin"], rebalancing=c["rebalancing"],
                                                      version=c["version"], print_level=100, log_level=100)
-        self.err = SimErrorCalculator(self.rk, p_zero=c["p_zero"], p_tie=c["p_tie"], mode="mix", use_epoch=True)
+        self.err = SimErrorCalculator(self.rk, p_zero=c["p_zero"], p_tie=c["p_tie"], mode="mix", use_epoch=c.get("use_epoch", True))
         return self
 
     def too_big(self):
